@@ -65,7 +65,7 @@ pub fn heuristic_of(q: &[String]) -> Heuristic<'static> {
     }
 }
 
-pub fn adf_query(id: &str, qid: &str, q: &[String], adf: &mut Adf, _parser: &AdfParser, out: &mut String) {
+pub fn adf_query<'p>(id: &str, qid: &str, q: &[String], adf: &mut Adf, _parser: &'p AdfParser<'p>, out: &mut String) {
     match q[0].as_str() {
         "stmca" => {
             let l: Vec<Vec<Term>> = adf.stable_count_optimisation_heu_a().collect();
@@ -78,6 +78,13 @@ pub fn adf_query(id: &str, qid: &str, q: &[String], adf: &mut Adf, _parser: &Adf
         "stmng" => {
             let l: Vec<Vec<Term>> = adf.stable_nogood(heuristic_of(&q[1..])).collect();
             writeln!(out, "{} {} stmng {}", id, qid, interps_string(&l)).unwrap();
+        }
+        "stmngch" => {
+            // the channel variant of the nogood search for stable models: the sender is dropped when the call returns
+            let (s, r) = crossbeam_channel::unbounded();
+            adf.stable_nogood_channel(heuristic_of(&q[1..]), s);
+            let l: Vec<Vec<Term>> = r.iter().collect();
+            writeln!(out, "{} {} stmngch {}", id, qid, interps_string(&l)).unwrap();
         }
         "twoval" => {
             let (s, r) = crossbeam_channel::unbounded();
@@ -297,7 +304,31 @@ pub fn adf_query(id: &str, qid: &str, q: &[String], adf: &mut Adf, _parser: &Adf
             }
             *adf = Adf::from_parser(_parser);
             let names: Vec<String> = _parser.var_container().names().read().unwrap().clone();
-            writeln!(out, "{} {} rebuild {} names={}", id, qid, q[1], names.iter().map(|s| crate::hex(s)).collect::<Vec<_>>().join(",")).unwrap();
+            let dv: Vec<String> = names.iter().map(|s| _parser.dict_value(s).map(|i| i.to_string()).unwrap_or_else(|| "none".to_string())).collect();
+            writeln!(out, "{} {} rebuild {} names={} dict={}", id, qid, q[1], names.iter().map(|s| crate::hex(s)).collect::<Vec<_>>().join(","), dv.join(",")).unwrap();
+        }
+        "reparse" => {
+            // a second parse() call on the same parser object, then a new ADF is instantiated from it (native back-end)
+            let t: &'static str = Box::leak(crate::unhex(&q[1]).into_boxed_str());
+            let ok = _parser.parse()(t).is_ok();
+            let built = std::panic::catch_unwind(std::panic::AssertUnwindSafe(|| Adf::from_parser(_parser)));
+            match built {
+                Ok(a2) => {
+                    *adf = a2;
+                    let names: Vec<String> = _parser.var_container().names().read().unwrap().clone();
+                    writeln!(
+                        out,
+                        "{} {} reparse {} names={} acs={}",
+                        id,
+                        qid,
+                        if ok { "OK" } else { "ERR" },
+                        names.iter().map(|s| crate::hex(s)).collect::<Vec<_>>().join(","),
+                        handles_string(&adf.ac)
+                    )
+                    .unwrap();
+                }
+                Err(_) => writeln!(out, "{} {} reparse {} PANIC", id, qid, if ok { "OK" } else { "ERR" }).unwrap(),
+            }
         }
         "paths" => {
             // path counts of the two terminals and of every acceptance condition, through the count cache /
@@ -393,6 +424,49 @@ fn run_ng(id: &str, lines: &[String], out: &mut String) {
                         None => "none".to_string(),
                     },
                     a.is_violating(&b) as u8
+                )
+                .unwrap();
+                k += 1;
+            }
+            "single" => {
+                let g = NoGood::new_single_nogood(w[1].parse().unwrap(), w[2] == "1");
+                writeln!(out, "{} q{} single {}", id, k, ng_string(&g, n)).unwrap();
+                k += 1;
+            }
+            "disj" => {
+                let mut a = NoGood::from_term_vec(&tv_terms(w[1]));
+                let b = NoGood::from_term_vec(&tv_terms(w[2]));
+                a.disjunction(&b);
+                writeln!(out, "{} q{} disj {}", id, k, ng_string(&a, n)).unwrap();
+                k += 1;
+            }
+            "contra" => {
+                let a = NoGood::from_term_vec(&tv_terms(w[1]));
+                let b = NoGood::from_term_vec(&tv_terms(w[2]));
+                writeln!(out, "{} q{} contra {}", id, k, a.is_contradicting(&b) as u8).unwrap();
+                k += 1;
+            }
+            "pairs" => {
+                let ps: Vec<(usize, bool)> = if w[1] == "-" {
+                    Vec::new()
+                } else {
+                    w[1].split(',')
+                        .map(|x| {
+                            let y: Vec<&str> = x.split(':').collect();
+                            (y[0].parse().unwrap(), y[1] == "1")
+                        })
+                        .collect()
+                };
+                let r = NoGood::try_from_pair_iter(&mut ps.into_iter());
+                writeln!(
+                    out,
+                    "{} q{} pairs {}",
+                    id,
+                    k,
+                    match r {
+                        Some(g) => ng_string(&g, n),
+                        None => "NONE".to_string(),
+                    }
                 )
                 .unwrap();
                 k += 1;
